@@ -30,18 +30,19 @@ IsEv(a) == l <= Len(Trace) /\ Trace[l].a = a
 Adv     == l' = l + 1
 
 Cf(c)     == [oomgate |-> c.oomgate, bodyc |-> c.bodyc, bodybig |-> c.bodybig, bodymax |-> c.bodymax, disk |-> FALSE]
-State0(c) == [ref |-> [k \in KeyNames |-> NoRef], backlog |-> FALSE, junk |-> FALSE, cf |-> Cf(c)]
-World0(c) == [s |-> State0(c), lk |-> ZeroLk]
+State0(c) == [ref |-> [k \in KeyNames |-> NoRef], backlog |-> FALSE, junk |-> FALSE, fresh |-> TRUE, cf |-> Cf(c)]
+World0(c) == [s |-> State0(c), lk |-> ZeroLk, dead |-> FALSE]
 
 RECURSIVE PlanSigs(_, _, _, _)
 PlanSigs(s, plan, i, acc) ==
   IF i > Len(plan) THEN acc
-  ELSE LET r == PresentFrom([s EXCEPT !.junk = FALSE], plan[i], 1, {}) IN PlanSigs(r.s, plan, i + 1, acc \cup r.sigs)
+  ELSE LET r == PresentFrom([s EXCEPT !.junk = FALSE, !.fresh = TRUE], plan[i], 1, {}) IN PlanSigs(r.s, plan, i + 1, acc \cup r.sigs)
 
 ModesOf(P) == IF Cardinality(P) <= 3 THEN SUBSET P ELSE {{}} \cup {{f} : f \in P} \cup {P}
 
 \* when nothing explains an observation the scenario goes on from a state that promises nothing
-Recovery(w) == [s |-> [w.s EXCEPT !.ref = [k \in KeyNames |-> WildRef], !.junk = FALSE], lk |-> [w.lk EXCEPT !.wild = TRUE]]
+\* (dead: its counter prediction explains nothing any more)
+Recovery(w) == [s |-> [w.s EXCEPT !.ref = [k \in KeyNames |-> WildRef], !.junk = FALSE], lk |-> w.lk, dead |-> TRUE]
 
 MinMode(S) == CHOOSE m \in S : \A m2 \in S : Cardinality(m) <= Cardinality(m2)
 
@@ -55,14 +56,15 @@ TrReset ==
   /\ UNCHANGED <<bad, drift, lead>>
 
 \* ---- one connection's script -------------------------------------------------------------
-ScriptChecks(e) ==
-  LET acc(m, rel) == UNION {Accepted(w, e.cmds, e.replies, e.closed, m, rel) : w \in W[m]}
-      alive  == {m \in modes : acc(m, FALSE) # {}}
+AccW(e, m, rel) == UNION {{[s |-> x.s, lk |-> x.lk, dead |-> w.dead] : x \in Accepted(w, e.cmds, e.replies, e.closed, m, rel)} : w \in W[m]}
+
+ScriptChecks(e, A) ==
+  LET alive  == {m \in modes : A[m] # {}}
       w0     == CHOOSE w \in W[{}] : TRUE
       idx    == FailIdx(w0, e.cmds, e.replies, {})
       c      == e.cmds[IF idx > Len(e.cmds) THEN Len(e.cmds) ELSE idx]
       name   == IF e.probe THEN "C11_Isolation"
-                ELSE IF acc({}, TRUE) # {} THEN "C11_Values"
+                ELSE IF AccW(e, {}, TRUE) # {} THEN "C11_Values"
                 ELSE IF WellFormed(c, w0.s.cf) THEN "C11_OneReply" ELSE "C11_Malformed"
   IN IF e.hang THEN {<<sid, e.n, "C11_Alive">>}
      ELSE IF Len(e.cmds) = 0 \/ {} \in alive THEN {}
@@ -71,10 +73,9 @@ ScriptChecks(e) ==
 
 TrScript ==
   /\ IsEv("Script") /\ Adv /\ sid' = sid
-  /\ bad' = bad \cup ScriptChecks(Ev)
-  /\ W' = [m \in modes |->
-             LET a == UNION {Accepted(w, Ev.cmds, Ev.replies, Ev.closed, m, FALSE) : w \in W[m]} IN
-             IF a # {} /\ ~Ev.hang THEN a ELSE {Recovery(w) : w \in W[m]}]
+  /\ LET A == [m \in modes |-> AccW(Ev, m, FALSE)] IN
+     /\ bad' = bad \cup ScriptChecks(Ev, A)
+     /\ W' = [m \in modes |-> IF A[m] # {} /\ ~Ev.hang THEN A[m] ELSE {Recovery(w) : w \in W[m]}]
   /\ UNCHANGED <<drift, lead, modes, present>>
 
 \* ---- quiescent point -------------------------------------------------------------------------
@@ -100,9 +101,9 @@ Ledger0 == [bal |-> [k \in {"Gc", "Gs", "Sc", "Ss", "Fc", "Fs", "Ac", "As"} |-> 
 QuiesceChecks(e) ==
   LET o      == e.cnt
       zero   == o.gc = 0 /\ o.gs = 0 /\ o.sc = 0 /\ o.ss = 0 /\ o.ac = 0 /\ o.as = 0
-      fits   == {m \in modes : \E w \in W[m] : LkMatch(w.lk, o)}
+      fits   == {m \in modes : \E w \in W[m] : ~w.dead /\ LkMatch(w.lk, o)}
       m0     == MinMode(fits)
-      w1     == CHOOSE w \in W[m0] : LkMatch(w.lk, o)
+      w1     == CHOOSE w \in W[m0] : ~w.dead /\ LkMatch(w.lk, o)
       tags   == w1.lk.sigs \cap C12Findings
       a      == Ledger(e.led, 1, Ledger0)
       negtag == IF "F2-unserved-del" \in present THEN "!F2-unserved-del" ELSE ""
@@ -130,7 +131,7 @@ TrQuiesce ==
   /\ W' = IF Ev.final THEN W
           ELSE [m \in modes |-> {[s |-> [w.s EXCEPT !.cf.disk = TRUE, !.backlog = FALSE,
                                                    !.ref = [k \in KeyNames |-> IF w.s.ref[k].st = "tomb" THEN WildRef ELSE w.s.ref[k]]],
-                                  lk |-> ZeroLk] : w \in W[m]}]
+                                  lk |-> ZeroLk, dead |-> w.dead] : w \in W[m]}]
   /\ UNCHANGED <<lead, modes, present>>
 
 \* ---- Write -> Read round trips (C11_RoundTrip, F14) ----------------------------------------
